@@ -126,6 +126,12 @@ def bdd_tasks(tier):
             for side in ('f', 'g'):
                 for op in (('and', 'or', 'xor') if order == ['a', 'b', 'c'] else ('and',)):
                     t.append(('pair', 3, op, order, {'%s%d' % (side, i): b for i, b in enumerate(tab)}))
+    # 4 variables: one operand pinned to a literal, the other arbitrary (65,536 functions per run, ~40 s each)
+    o4 = ['a', 'b', 'c', 'd']
+    l4 = literal_tables(o4)
+    for name in ('a', '~b', 'c', '~d', 'b', '~c', 'd', '~a'):
+        t.append(('pair', 4, 'and' if name[0] != '~' else 'or', o4, {'f%d' % i: b for i, b in enumerate(l4[name])}))
+        t.append(('pair', 4, 'xor' if name[0] != '~' else 'and', o4, {'g%d' % i: b for i, b in enumerate(l4[name])}))
     if tier == 'thorough':
         for op in ('and', 'or', 'xor'):
             t.append(('pair', 3, op, ['a', 'b', 'c']))
